@@ -3,8 +3,8 @@
    Strings are lists of Unicode scalar values; [ustring_wf] (every element is a scalar value) is what
    the Rust type `String` guarantees, so it is the domain of the property, not a restriction. *)
 From LV Require Import Base.Bytes Model.Utf Model.Obj Model.OneByte Model.TextString Model.TextExtract
-  Gen.Tables Spec.PublishedTables Spec.ShownText
-  Proofs.TextProofsUtf Proofs.TextProofsTables Proofs.TextProofsString Proofs.TextProofsExtract.
+  Gen.Tables Spec.PublishedTables Spec.ShownText Spec.ShownBlocks
+  Proofs.TextProofsUtf Proofs.TextProofsTables Proofs.TextProofsString Proofs.TextProofsExtract Proofs.TextProofsBlocks.
 Local Open Scope N_scope.
 Local Open Scope string_scope.
 
@@ -145,6 +145,18 @@ Theorem C16_extract_shown_text :
     extract_text [page_showing fname font size t ps] [1] = Ok (shown_text ps).
 Proof. exact extract_shown_text. Qed.
 
+(* ... several text objects on a page, the font selected ONCE -- before the first BT (inside = false) or in the
+   first text object only (inside = true): the font is graphics state, every later BT .. ET that shows
+   something is extracted with it.  [block_shows]: the text object shows at least one character or TJ
+   array (an empty text object after a finished line adds no second line break in extract_text; that
+   layout detail is outside the property). *)
+Theorem C16_extract_shown_blocks :
+  forall font t inside fname size bss,
+    get_font_encoding font = Ok (EncOneByte t) ->
+    Forall (Forall (piece_over (in_repertoire t))) bss -> Forall block_shows bss ->
+    extract_text [page_blocks inside fname font size t bss] [1] = Ok (shown_blocks bss).
+Proof. exact extract_shown_blocks. Qed.
+
 (* ---- non-vacuity ---- *)
 Theorem C16_example_text :
   ustring_wf [97; 10; 233; 0x1F600; 0xFEFF; 0xD7FF; 0xE000; 0x10FFFF] /\
@@ -171,6 +183,15 @@ Theorem C16_example_shown :
               Ok [72; 233; 108; 108; 111; 87; 32; 111; 114; 108; 100; 8364; 32; 10].
 Proof. exact ex_shown. Qed.
 
+Theorem C16_example_blocks :
+  exists t, get_font_encoding ex_font = Ok (EncOneByte t) /\
+            Forall (Forall (piece_over (in_repertoire t))) ex_blocks /\ Forall block_shows ex_blocks /\
+            extract_text [page_blocks false (bs "F1") ex_font (OInt 12) t ex_blocks] [1] =
+              Ok [72; 233; 108; 108; 111; 87; 32; 111; 114; 108; 100; 8364; 32; 10; 111; 107; 10] /\
+            extract_text [page_blocks true (bs "F1") ex_font (OInt 12) t ex_blocks] [1] =
+              Ok [72; 233; 108; 108; 111; 87; 32; 111; 114; 108; 100; 8364; 32; 10; 111; 107; 10].
+Proof. exact ex_blocks_shown. Qed.
+
 Print Assumptions C16_utf16_rt.
 Print Assumptions C16_utf8_rt.
 Print Assumptions C16_text_string_rt.
@@ -193,3 +214,5 @@ Print Assumptions C16_extract_shown_text.
 Print Assumptions C16_example_text.
 Print Assumptions C16_example_tables.
 Print Assumptions C16_example_shown.
+Print Assumptions C16_extract_shown_blocks.
+Print Assumptions C16_example_blocks.
